@@ -9,7 +9,7 @@ let parse_entry (s : string) : entry =
 let parse_ents (s : string) : entry list =
   if s = "-" then [] else List.map parse_entry (String.split_on_char ',' s)
 
-type cmd = Op of op | QT of n | QE of n * n * n | Bad of string
+type cmd = Op of op | QT of n | QE of n * n * n | XS of n | LR of n * n | CC | Bad of string
 
 let parse_op (s : string) : cmd =
   match split_ws s with
@@ -21,6 +21,9 @@ let parse_op (s : string) : cmd =
   | ["K"] -> Op OCommit
   | ["S"; i; t] -> Op (ORestore (n_of_string i, n_of_string t))
   | ["X"; k] -> Op (OCompact (n_of_string k))
+  | ["XS"; k] -> XS (n_of_string k)            (* the store alone drops entries <= k *)
+  | ["LR"; f; n] -> LR (n_of_string f, n_of_string n)   (* LogReader.SetRange called directly *)
+  | ["CC"; _] -> CC                             (* concurrent readers/no-op writers on the LogReader: no state change *)
   | ["QT"; i] -> QT (n_of_string i)
   | ["QE"; lo; hi; mx] -> QE (n_of_string lo, n_of_string hi, n_of_string mx)
   | _ -> Bad s
@@ -139,7 +142,8 @@ let run_case (id : string) (hdr : string list) (ops : string list) =
     let rlon = List.exists (fun o ->
       String.length o > 3 && String.sub o 0 3 = "rl=" &&
       (let v = String.sub o 3 (String.length o - 3) in v <> "0" && v <> "18446744073709551615")) opts in
-    let w = ref (w_init_rl rlon mi mt ents c lim) in
+    let skip = List.mem "st=front" opts in
+    let w = ref (w_init_opt skip rlon mi mt ents c lim) in
     let sp = ref (sp_init mi mt ents c) in
     let spec_on = ref (wf = "1") in
     Printf.printf "%s init %s\n" id (digest !w);
@@ -165,6 +169,19 @@ let run_case (id : string) (hdr : string list) (ops : string list) =
             and b = show_res show_ents (sp_entries !sp lo hi mx) in
             if a <> b then Printf.printf "%s %d SPEC-MISMATCH ents model=%s spec=%s\n" id k a b
           end
+        | XS kk ->
+          spec_on := false;
+          let w0 = !w in
+          w := { w0 with w_st = st_remove_to w0.w_st kk };
+          Printf.printf "%s %d ok %s\n" id k (digest !w)
+        | CC -> Printf.printf "%s %d ok %s\n" id k (digest !w)
+        | LR (f, n) ->
+          spec_on := false;
+          let w0 = !w in
+          (match lr_set_range w0.w_lr f n with
+           | Ok lr -> w := { w0 with w_lr = lr }; Printf.printf "%s %d ok %s\n" id k (digest !w)
+           | Fail e -> Printf.printf "%s %d err:%s\n" id k (err_name e); raise Exit
+           | Panic t -> Printf.printf "%s %d panic:%s\n" id k (tag_name t); raise Exit)
         | Op o ->
           if !spec_on && not (wf_op !sp o) then spec_on := false;
           (match step !w o with
